@@ -349,7 +349,7 @@ func (x *Exec) appendOp(fr *Frame, st *State, cc *ssa.CallCommon, args []Val, si
 			srcAt = func(j *Term) *Term { return x.sat(srcStr, j) }
 		} else {
 			srcInner := c.Select(comp, src.Arr)
-			srcAt = func(j *Term) *Term { return c.Select(srcInner, c.Add(src.Off, j)) }
+			srcAt = func(j *Term) *Term { return c.Select(srcInner, x.slot(src.Off, j)) }
 		}
 		// new inner array content A' for the result array
 		np := c.Fresh("arr!append", ArrSort(SInt, l.Sort))
@@ -358,12 +358,22 @@ func (x *Exec) appendOp(fr *Frame, st *State, cc *ssa.CallCommon, args []Val, si
 		// positions relative to result offset
 		rel := c.Sub(i, resOff)
 		// old elements
-		cOld := c.Implies(c.InRange(rel, c.Int(0), s.Len), c.Eq(sel, c.Select(oldInner, c.Add(s.Off, rel))))
+		cOld := c.Implies(c.InRange(rel, c.Int(0), s.Len), c.Eq(sel, c.Select(oldInner, x.slot(s.Off, rel))))
 		// appended elements
 		cNew := c.Implies(c.InRange(rel, s.Len, newLen), c.Eq(sel, srcAt(c.Sub(rel, s.Len))))
 		// in place: everything outside the appended window is unchanged
 		cFrame := c.Implies(c.And(inPlace, c.Not(c.InRange(rel, s.Len, newLen))), c.Eq(sel, c.Select(oldInner, i)))
 		x.assume(st, c.Forall([]*Term{i}, c.And(cOld, cNew, cFrame), []*Term{sel}))
+		// the same facts in index-relative form (no arithmetic between trigger and conclusion)
+		r := c.NewBound("r", SInt)
+		selR := c.Select(np, x.slot(resOff, r))
+		x.assume(st, c.Forall([]*Term{r}, c.Implies(c.InRange(r, c.Int(0), s.Len),
+			c.Eq(selR, c.Select(oldInner, x.slot(s.Off, r)))), []*Term{selR}))
+		if n.ival != nil && n.ival.IsInt64() && n.ival.Int64() <= 4 {
+			for k := int64(0); k < n.ival.Int64(); k++ {
+				x.assume(st, c.Eq(c.Select(np, x.slot(resOff, c.Add(s.Len, c.Int(k)))), srcAt(c.Int(k))))
+			}
+		}
 		if li == 0 && !x.dry {
 			// frame: the in-place case writes into the existing backing array
 			x.frameCheckElemRange(st, key, s.Arr, c.Add(s.Off, s.Len), c.Add(s.Off, newLen), inPlace, site)
@@ -382,7 +392,7 @@ func (x *Exec) copyOp(fr *Frame, st *State, cc *ssa.CallCommon, args []Val, site
 	switch a := args[1].(type) {
 	case VSlice:
 		n = c.Min(dst.Len, a.Len)
-		srcAt = func(comp *Term, j *Term) *Term { return c.Select(c.Select(comp, a.Arr), c.Add(a.Off, j)) }
+		srcAt = func(comp *Term, j *Term) *Term { return c.Select(c.Select(comp, a.Arr), x.slot(a.Off, j)) }
 	case VInt:
 		n = c.Min(dst.Len, x.slen(a.T))
 		x.assume(st, x.strLenFacts(a.T))
@@ -402,6 +412,9 @@ func (x *Exec) copyOp(fr *Frame, st *State, cc *ssa.CallCommon, args []Val, site
 			c.Implies(in, c.Eq(sel, srcAt(comp, rel))),
 			c.Implies(c.Not(in), c.Eq(sel, c.Select(oldInner, i))))
 		x.assume(st, c.Forall([]*Term{i}, body, []*Term{sel}))
+		r := c.NewBound("r", SInt)
+		selR := c.Select(np, x.slot(dst.Off, r))
+		x.assume(st, c.Forall([]*Term{r}, c.Implies(c.InRange(r, c.Int(0), n), c.Eq(selR, srcAt(comp, r))), []*Term{selR}))
 		if li == 0 && !x.dry {
 			x.frameCheckElemRange(st, key, dst.Arr, dst.Off, c.Add(dst.Off, n), c.True(), site)
 		}
